@@ -37,10 +37,14 @@ func (t *LatencyToxic) Pipe(stub *ToxicStub) {
 				stub.Close()
 				return
 			}
-			sleep := t.delay() - time.Since(c.Timestamp)
+			delay := t.delay()
+			sleep := delay - time.Since(c.Timestamp)
 			select {
 			case <-time.After(sleep):
-				c.Timestamp = c.Timestamp.Add(sleep)
+				// Stamp the chunk with the whole delay, not only the part that was still
+				// to be slept: time it spent queued behind earlier chunks must not be
+				// credited again by a following latency toxic.
+				c.Timestamp = c.Timestamp.Add(delay)
 				stub.Output <- c
 			case <-stub.Interrupt:
 				// Exit fast without applying latency.
